@@ -7,9 +7,9 @@ from ..grules import (effect_findings, entry_points, fn_of, load_controls, load_
 EXPECTED_CONTROLS = {
     "ctl_static_counter": "G-EFFECT", "ctl_thread_local": "G-EFFECT", "ctl_env": "G-EFFECT", "ctl_time": "G-EFFECT",
     "ctl_hash_iter": "G-HASH", "ctl_hash_iter_ref": "G-HASH", "ctl_hash_map_keys": "G-HASH", "ctl_ptr_to_int": "G-EFFECT",
-    "ctl_fs": "G-EFFECT",
+    "ctl_fs": "G-EFFECT", "ctl_debug_format": "G-EFFECT",
 }
-MUST_NOT_FLAG = ("ctl_hash_ok",)
+MUST_NOT_FLAG = ("ctl_hash_ok", "ctl_display_format_ok")
 
 
 def run(tier):
